@@ -1,7 +1,8 @@
 (* C20 — Reported progress is a proper weighted fraction.  Property theorems only. *)
-From Coq Require Import ZArith List Bool.
+From Coq Require Import ZArith List Bool Reals.
 Import ListNotations.
 Require Import V.Weights.Model V.Weights.Proofs V.Weights.FloatTie.
+Require Import V.Weights.RSum V.Weights.FloatModel V.Weights.FloatSum.
 Open Scope Z_scope.
 
 (* Weights after loading: for every number of stages n >= 1 and every assignment of given
@@ -56,6 +57,56 @@ Theorem C20_float_tie :
   (forall n, 1 <= n <= 2000 -> tie_q n = true).
 Proof. split; [exact tie_k_all|split; [exact tie_n_all|exact tie_q_all]]. Qed.
 Print Assumptions C20_float_tie.
+
+(* ---- The binary64 accumulation of CheckStatus (FloatModel.fprogress, IEEE-754 double,
+   round-to-nearest-even, exactly the operations of the code: 0.0, then += p*w per active stage,
+   then += w per finished stage), for ALL inputs with at most 2^20 stages:
+   active stages carry doubles (p, w) that are within one rounding (relative 2^-53) of exact
+   values (qp, qw) >= 0 -- as are a weight parsed from a decimal or computed as k/1000.0 and a progress
+   computed as len_finished/float(total) -- finished stages a double w near qw.  With
+   X = sum qp*qw + sum qw (the exact total of Model.total, X <= 2) the reported double is finite,
+   non-negative and   |reported - X| <= (n+3) * 2^-52 * X + n * 2^-1074. *)
+Theorem C20_float_progress :
+  forall (active : list (PrimFloat.float * PrimFloat.float)) (finished : list PrimFloat.float)
+         (qa : list (R * R)) (qf : list R),
+  Forall (fun pw => prog_ok (fst pw) = true /\ weight_ok (snd pw) = true) active ->
+  Forall (fun w => weight_ok w = true) finished ->
+  Forall2 (fun pw q => (0 <= fst q)%R /\ (0 <= snd q)%R /\ fnear (fst pw) (fst q) /\ fnear (snd pw) (snd q)) active qa ->
+  Forall2 (fun w q => (0 <= q)%R /\ fnear w q) finished qf ->
+  (Z.of_nat (length active + length finished) <= 1048576)%Z ->
+  (exact_prods qa + sumR qf <= 2)%R ->
+  ffin (fprogress active finished) /\ (0 <= fval (fprogress active finished))%R /\
+  (Rabs (fval (fprogress active finished) - (exact_prods qa + sumR qf))
+     <= INR (length active + length finished + 3) * (2 * u64) * (exact_prods qa + sumR qf)
+        + INR (length active + length finished) * (2 * eta64))%R.
+Proof. exact fprogress_vs_exact. Qed.
+Print Assumptions C20_float_progress.
+
+(* ... and once every stage has completed (all exact progress values 1, exact weights summing to
+   one) the reported double is within (n+3) ulp(1) = (n+3) * 2^-52 (+ n * 2^-1074) of 1.0.
+   It is NOT always exactly 1.0: ten stages of weight 0.1 give 0.9999999999999999 (see the harness). *)
+Theorem C20_float_complete :
+  forall (active : list (PrimFloat.float * PrimFloat.float)) (finished : list PrimFloat.float)
+         (qa : list (R * R)) (qf : list R),
+  Forall (fun pw => prog_ok (fst pw) = true /\ weight_ok (snd pw) = true) active ->
+  Forall (fun w => weight_ok w = true) finished ->
+  Forall2 (fun pw q => (0 <= fst q)%R /\ (0 <= snd q)%R /\ fnear (fst pw) (fst q) /\ fnear (snd pw) (snd q)) active qa ->
+  Forall2 (fun w q => (0 <= q)%R /\ fnear w q) finished qf ->
+  (Z.of_nat (length active + length finished) <= 1048576)%Z ->
+  Forall (fun q => fst q = 1%R) qa -> (sumR (map snd qa) + sumR qf = 1)%R ->
+  (Rabs (fval (fprogress active finished) - 1)
+     <= INR (length active + length finished + 3) * (2 * u64)
+        + INR (length active + length finished) * (2 * eta64))%R.
+Proof. exact fprogress_complete. Qed.
+Print Assumptions C20_float_complete.
+
+(* the constants, and: a correctly rounded normal number is "near" its exact value, so the
+   hypotheses fnear are met by every weight/progress the code computes by one rounding *)
+Theorem C20_float_constants :
+  (2 * u64 = / 4503599627370496)%R /\ (2 * eta64 = Raux.bpow Zaux.radix2 (-1074))%R /\
+  (forall q : R, (Raux.bpow Zaux.radix2 (-1022) <= q)%R -> near u64 (rnd64 q) q) /\ near u64 (rnd64 0) 0.
+Proof. destruct consts64 as [A B]. split; [exact A|]. split; [exact B|]. split; [exact near_rnd64|exact near_rnd64_0]. Qed.
+Print Assumptions C20_float_constants.
 
 (* non-vacuity: a 3-stage package giving 0.2/0.3/0.5 meets every hypothesis, is kept, and a
    7-stage package giving nothing gets 6 x 0.142 + 0.148 *)
